@@ -423,6 +423,40 @@ class World:
         return out
 
 
+def twice(w, tw):
+    """read a source directory twice (parse, then served from the cache the
+    first read wrote) and compare the six components"""
+    d = w.work / f"tw{tw['id']}"
+    shutil.rmtree(d, ignore_errors=True)
+    d.mkdir(parents=True)
+    for f in sorted(os.listdir(tw['path'])):
+        if not f.startswith('femio_') and os.path.isfile(os.path.join(tw['path'], f)):
+            shutil.copy(os.path.join(tw['path'], f), d / f)
+    out = {'id': tw['id']}
+    kw = {'time_series': True} if tw.get('time_series') else {}
+    try:
+        Flags.loaded = Flags.parsed = False
+        fd1 = FEMData.read_directory(tw['ftype'], d, **kw)
+        out['first'] = 'parsed' if Flags.parsed and not Flags.loaded else 'other'
+        d1 = comp_digests(fd1)
+    except Exception as e:
+        out['first_exc'] = type(e).__name__ + ': ' + str(e)[:120]
+        shutil.rmtree(d, ignore_errors=True)
+        return out
+    out['files'] = sorted(p.name for p in d.glob('femio_*'))
+    try:
+        Flags.loaded = Flags.parsed = False
+        fd2 = FEMData.read_directory(tw['ftype'], d, **kw)
+        out['second'] = 'loaded' if Flags.loaded and not Flags.parsed else 'other'
+        d2 = comp_digests(fd2)
+        out['diff'] = [c for c in COMPS if d1[c] != d2[c]]
+        out['types'] = [str(t) for t in fd1.elements.keys()]
+    except Exception as e:
+        out['second_exc'] = type(e).__name__ + ': ' + str(e)[:160]
+    shutil.rmtree(d, ignore_errors=True)
+    return out
+
+
 def keycase(kc):
     """to_dict / from_dict on objects with chosen names and element types; every
     attribute carries the tags (2i, 2i+1) in its ids / data"""
@@ -493,6 +527,7 @@ def main():
     out['histories'] = [w.history(h) for h in spec.get('histories', [])]
     out['roundtrips'] = [w.roundtrip(rt) for rt in spec.get('roundtrips', [])]
     out['keycases'] = [keycase(kc) for kc in spec.get('keycases', [])]
+    out['twice'] = [twice(w, tw) for tw in spec.get('twice', [])]
     pathlib.Path(spec['out']).write_text(json.dumps(out))
 
 
